@@ -5,7 +5,8 @@ import ModbusProofs.Lemmas.ClientLoop
   For the RTU network client and the serial client, for EVERY transport script (every corruption, truncation,
   extension and fragmentation is some script):
     * if the call returns a response, the frame it was parsed from ends with the CRC of its other bytes;
-    * if the call returns a device exception, the five bytes it was recognised on end with their CRC.
+    * if the call returns a device exception, the five bytes it was recognised on end with their CRC - whether the
+      read loop recognised it (`exception_has_crc`) or the response parser did (`parsed_exception_has_crc`).
   Contrapositive: bytes whose trailing CRC is inconsistent are never returned as a response or as a device
   exception. (Before the repair 31b1edb the exception shortcut of the read loop ran before any CRC check.)
 -/
@@ -42,6 +43,38 @@ theorem exception_has_crc (k : ClientKind) (hk : k.framing = .rtu) (fl : Flusher
     ∃ p, asProtocolError k p = some e ∧ crcMatches p = true := by
   obtain ⟨p, hp⟩ := readLoop_exc_src k fl expected script [] [] e log h
   exact ⟨p, hp, asProtocolError_rtu_crc k hk p e hp⟩
+
+/-- the other way an exception can reach the caller: the read loop hands a frame to the parser and the PARSER reports
+the exception (a read-server-id request expects 2 bytes, or the peer closes right after a 5-byte frame). Also then the
+frame carries a matching CRC: the CRC is checked before anything else is looked at. -/
+theorem parsed_exception_has_crc (k : ClientKind) (hk : k.framing = .rtu) (fl : Flusher) (hooks : Bool) (req : Bytes)
+    (expected : Nat) (script : List Ev) (u fc c : UInt8)
+    (h : (doExchange k fl hooks req expected false script).1 = .err (.parse (.excR u fc c))) :
+    ∃ bs log, readLoop k fl expected script [] [] = (.frame bs, log) ∧ crcMatches bs = true := by
+  unfold doExchange at h
+  simp only [Bool.false_eq_true, if_false] at h
+  cases hrl : readLoop k fl expected script [] [] with
+  | mk out log =>
+    rw [hrl] at h
+    cases out with
+    | err e =>
+      -- errors of the read loop are never `parse` errors
+      exfalso
+      simp only [DoOut.err.injEq] at h
+      have := readLoop_err_class k fl expected script [] [] e log hrl
+      rw [h] at this
+      rcases this with x | x | x | x | x | x | ⟨_, x⟩ <;> cases x
+    | frame bs =>
+      refine ⟨bs, log, rfl, ?_⟩
+      simp only [hk] at h
+      by_cases hc : crcMatches bs = true
+      · exact hc
+      · exfalso
+        have : parseRTUResponseWithCRC ⟨bs, []⟩ = .err .plain ∨ parseRTUResponseWithCRC ⟨bs, []⟩ = .err .badCRC := by
+          unfold parseRTUResponseWithCRC
+          dsimp only
+          split_ifs <;> simp_all
+        rcases this with hp | hp <;> rw [hp] at h <;> cases parseTCPResponse ⟨bs, []⟩ <;> simp at h
 
 /-- the five noise bytes `01 83 02 de ad`, which the unrepaired clients reported as exception code 2 -/
 example : asProtocolError .serial [0x01, 0x83, 0x02, 0xde, 0xad] = none := by decide +kernel
